@@ -110,6 +110,36 @@ class Scen:
             elif k == 7: self.emit('%s.client_reset()' % f if r.chance(1, 2) else '%s.server_reset()' % f, None, wrap, dyn=lambda s: [E(c2s if 'client' in s else s2c)])
             elif k == 8: self.emit('%s.client_close()' % f, [E(c2s), E(s2c), E(c2s)], wrap)
             else: self.emit('%s.server_close()' % f, [E(s2c), E(c2s), E(s2c)], wrap)
+    def optgrid(self):
+        """every combination of the per-call options of the message / datagram builders with payloads of 0, 1 and 2 bytes
+        (an option whose handling is shared with the payload path is otherwise only exercised with whatever length chance picks)"""
+        r = self.r
+        cl = (0x0a000000 + r.below(2 ** 24), 1024 + r.below(60000)); sv = (0xc0000200 + r.below(256), 80)
+        self.n += 1; f = 't%d' % self.n
+        self.decl.append('let %s = ipv4::tcp::flow(%s:%d, %s:%d%s);' % (f, ip(cl[0]), cl[1], ip(sv[0]), sv[1], self.rawarg()))
+        c2s = dict(src=cl[0], dst=sv[0]); s2c = dict(src=sv[0], dst=cl[0])
+        base = dict(proto=6, id=0, ttl=64, off=0, evil=False, df=False, mf=False, l4='tcp', eth='ip')
+        def E(d, **kw): e = dict(base); e.update(d); e.update(kw); return e
+        for who in (True, False):
+            for fo in (0, 1, 185, 8191):
+                for ack in (True, False):
+                    for n in (0, 1, 2):
+                        b = r.bytes(n)
+                        args = ([] if ack else ['send_ack: false']) + (['frag_off: %d' % fo] if fo else []) + [lit(b)]
+                        a, bb = (c2s, s2c) if who else (s2c, c2s)
+                        self.emit('%s.%s_message(%s)' % (f, 'client' if who else 'server', ', '.join(args)), [E(a, off=fo, plen=n)] + ([E(bb)] if ack else []))
+        ucl = (0x0a000000 + r.below(2 ** 24), r.below(65536)); usv = (0xac100000 + r.below(2 ** 16), 53)
+        self.n += 1; u = 'u%d' % self.n
+        self.decl.append('let %s = ipv4::udp::flow(%s:%d, %s:%d%s);' % (u, ip(ucl[0]), ucl[1], ip(usv[0]), usv[1], self.rawarg()))
+        for who in (True, False):
+            for fo in (0, 1, 8191):
+                for cs in (True, False):
+                    for n in (0, 1, 2):
+                        b = r.bytes(n)
+                        args = (['frag_off: %d' % fo] if fo else []) + ([] if cs else ['csum: false']) + [lit(b)]
+                        a = dict(src=ucl[0], dst=usv[0], sport=ucl[1], dport=usv[1]) if who else dict(src=usv[0], dst=ucl[0], sport=usv[1], dport=ucl[1])
+                        self.emit('%s.%s_dgram(%s)' % (u, 'client' if who else 'server', ', '.join(args)),
+                                  [dict(a, proto=17, id=0, ttl=64, off=fo, evil=False, df=False, mf=False, l4=('udp', cs), eth='ip', plen=n)])
     def drop_empty(self, stmt):
         """an empty payload may also be given by passing no payload argument at all"""
         if '.echo' in stmt or not self.r.chance(1, 2): return stmt
@@ -260,6 +290,7 @@ def build(r, raw, kinds=None, quick=True):
         elif k == 'udp-sweep': s.udp(96)
         else: s.tcp(96)
         del SWEEP[:]
+    elif k == 'opt-grid': s.optgrid()
     elif k == 'icmp-long': s.icmp(150)          # long histories: a wide sample of checksum values per segment kind
     elif k == 'udp-long': s.udp(100)
     elif k == 'tcp-long': s.tcp(80)
